@@ -57,6 +57,7 @@ let buffer_mode () =
         p := { minkeys = nn mk; minsize = nn ms; forcesize = nn fs }
     | "OP" :: name :: rest ->
         let (args, res) = split_arrow [] rest in
+        let compare = List.mem "=>" rest in
         let impl = String.concat "\t" res in
         incr nops;
         (try
@@ -64,7 +65,7 @@ let buffer_mode () =
           let (s', r) = step !p !s o in
           s := s';
           let m = fmt_resp name r in
-          if m <> impl then begin
+          if compare && m <> impl then begin
             incr mism;
             if !mism <= 40 then Printf.printf "MISMATCH\t%s\t%d\t%s\tmodel=%s\n" !cid !idx (String.concat " " (name :: args @ ["=>"] @ res)) (String.concat " " (split_tab m))
           end
@@ -72,9 +73,11 @@ let buffer_mode () =
         incr idx
     | "END" :: id :: _ ->
         let st = !s in
-        Printf.printf "FINAL\t%s\t%s\t%s\t%s\t%s\t%s\n" id (hexk st.pstart) (hexk st.pend)
+        Printf.printf "FINAL\t%s\t%s\t%s\t%s\t%s\t%s\t%s\n" id (hexk st.pstart) (hexk st.pend)
           (if st.closed then "1" else "0") (sn st.gen)
           (let ks = flushed_keys st in if ks = [] then "-" else String.concat "," (List.map hexk ks))
+          (let l = List.filter (fun ((_, _), sent) -> sent) st.flog in
+           if l = [] then "-" else String.concat "|" (List.map (fun ((g, b), _) -> sn g ^ ":" ^ fmt_buf b) l))
     | _ -> ());
   Printf.printf "STATS\tcases=%d\tops=%d\tmismatches=%d\n" !ncase !nops !mism
 
